@@ -287,6 +287,14 @@ func C10(c *Ctx) {
 				c.R.Check(!bad, "C10-R1", "global "+n, c.P.Pos(m.Pos()), "type cannot hold a runtime", "package-level variable can hold a runtime across executions: "+why)
 			case *ssa.Type:
 				bad, why := containsRuntime(m.Type(), 0, map[types.Type]bool{})
+				if bad && !m.Object().Exported() {
+					// an unexported helper type (say the per-call record a watcher goroutine works on) holds a
+					// runtime only for as long as something holds it: the globals and the exported types
+					// (Interpreter) are judged themselves, through their own fields; a value parked in a
+					// pool is found by the points-to rule above
+					c.R.Discharge("C10-R1", "type "+n, c.P.Pos(m.Pos()), "unexported: can hold a runtime only as a local of an execution (its holders are judged: "+why+")")
+					continue
+				}
 				c.R.Check(!bad, "C10-R1", "type "+n, c.P.Pos(m.Pos()), "type cannot hold a runtime", "type can hold a runtime across executions: "+why)
 			}
 		}
